@@ -29,7 +29,7 @@ def discharge(ob):
     t0 = time.time()
     rec = {"name": ob.name, "kind": ob.kind, "function": ob.func}
     if ob.expect == "sat":  # cover: the path must be feasible
-        s = _solver(ob.hyps, None, True, 4000)
+        s = _solver(ob.hyps, None, True, 1500)
         r = s.check()
         rec["backend"] = "z3"
         rec["ms"] = round((time.time() - t0) * 1000, 1)
